@@ -295,7 +295,7 @@ class C19(Sim):
     FAULT_KINDS = ["prng_handover", "reject"]
     PROBES = ["radius<1", "radius>1", "grid_nonperfect_power", "grid_perfect_power", "box_dim>=4", "point_cloud_return",
               "normals_requested", "single_edge_polyline", "single_face_surface", "multi_component_polyline", "n1!=n2", "n1==n2",
-              "chi2_test_run", "chi2_polyline", "chi2_surface", "many_small_draws", "caller_edits_returned_value", "ctrl_point_replaced", "t_out_of_range", "t_endpoint", "degree0", "patch_nonsquare_net",
+              "chi2_test_run", "chi2_polyline", "chi2_surface", "box_moved_by_caller", "many_small_draws", "caller_edits_returned_value", "ctrl_point_replaced", "t_out_of_range", "t_endpoint", "degree0", "patch_nonsquare_net",
               "shared_stream_run", "large_centre", "measured_then_deformed", "integer_control_net", "zero_area_face"]
     QUICK_RUNS = 3000
     THOROUGH_RUNS = 300000
@@ -430,6 +430,7 @@ class C19(Sim):
             with np.errstate(all="ignore"):
                 self.tris.append(RefTriangles(sf["points"], sf["faces"]))
         self.boxes = [M.geometry.AABB(list(b["mini"]), list(b["maxi"])) for b in w["boxes"]]
+        self.box_now = [{"mini": list(b["mini"]), "maxi": list(b["maxi"])} for b in w["boxes"]]  # corners as they stand (a caller may move a box)
         if any(sf.get("degenerate") for sf in w["surfaces"]):
             self.probes["zero_area_face"] += 1
         if any(c.get("int") for c in w["curves"] + w["patches"]):
@@ -487,6 +488,14 @@ class C19(Sim):
         if op in ("sphere", "ball"):
             return {"c": c, "op": op, "center": self._centre(r), "cform": r.choice(["vec", "nparr"]), "radius": self._radius(r),
                     "n": n, "pc": r.chance(0.25)}
+        if op == "aabb" and r.chance(0.12):
+            b = r.below(len(w["boxes"]))
+            cur = self.box_now[b]
+            sh = [round(r.uniform(-3, 3), 3) for _ in cur["mini"]]
+            k_ = r.choice([0.5, 1.0, 2.0, 10.0])
+            mn = [a + s_ for a, s_ in zip(cur["mini"], sh)]
+            mx = [m_ + k_ * (c_ - a) for m_, a, c_ in zip(mn, cur["mini"], cur["maxi"])]
+            return {"c": c, "op": "box_move", "box": b, "mini": mn, "maxi": mx}
         if op == "aabb":
             b = r.below(len(w["boxes"]))
             d = len(w["boxes"][b]["mini"])
@@ -646,6 +655,8 @@ class C19(Sim):
             return 0 <= ev["k"] < len(w["patches"])
         if op == "as_surface":
             return 0 <= ev["k"] < len(w["patches"]) and len(w["patches"][ev["k"]]["P"][0][0]) == 3
+        if op == "box_move":
+            return 0 <= ev["box"] < len(w["boxes"]) and len(ev["mini"]) == len(w["boxes"][ev["box"]]["mini"]) and all(a < b_ for a, b_ in zip(ev["mini"], ev["maxi"]))
         if op in ("sphere", "ball"):
             return self.draws + ev["n"] <= MAX_DRAWS
         return True
@@ -732,8 +743,23 @@ class C19(Sim):
     _do_sphere = _do_ball = _do_ball_like
 
     # ------------------------------------------------------------------ box
+    def _do_box_move(self, ev):
+        """the caller moves / resizes a box it owns by writing into its corners (box.mini / box.maxi are the box's own arrays)"""
+        k = ev["box"]
+        bx = self.boxes[k]
+        mn, mx = [float(x) for x in ev["mini"]], [float(x) for x in ev["maxi"]]
+        o = call(lambda: (bx.mini.__setitem__(slice(None), mn), bx.maxi.__setitem__(slice(None), mx)))
+        if not o.ok:
+            return "not-writable:" + o.brief()  # (corners that cannot be written in place: nothing moved, nothing to judge)
+        got = ([float(x) for x in bx.mini], [float(x) for x in bx.maxi])
+        if got != (mn, mx):
+            return "not-a-view"
+        self.box_now[k] = {"mini": mn, "maxi": mx}
+        self.probes["box_moved_by_caller"] += 1
+        return "moved"
+
     def _do_aabb(self, ev):
-        b = self.cfg["world"]["boxes"][ev["box"]]
+        b = self.box_now[ev["box"]]
         mini, maxi = np.array(b["mini"], dtype=float), np.array(b["maxi"], dtype=float)
         d, n, mode, pc = len(mini), ev["n"], ev["mode"], ev["pc"]
         ac = mode
